@@ -69,6 +69,12 @@ func checkC20(c *Ctx) error {
 				sv.Args = append(sv.Args, cfg.Str(fmt.Sprintf("%%env(\"VERIF_ENV_%d\", \"x\")%%:%%envInt(\"VERIF_ENVI_%d\", 7)%%", si%3, si%3)))
 			}
 		}
+		// parameters that are nothing but a reference to a parameter computed by a function (and a reference to that reference):
+		// however many of them are read, the function runs once
+		conf.Meta.Functions = append(conf.Meta.Functions, cfg.KS{K: "c20fn", V: `"fixt/pa".Fn`}, cfg.KS{K: "c20echo", V: `"fixt/pb".FnEcho`})
+		conf.Params = append(conf.Params,
+			cfg.KV{K: "fnsrc", V: cfg.Str(`%c20fn(1, "a")%`)}, cfg.KV{K: "fnalias", V: cfg.Str("%fnsrc%")}, cfg.KV{K: "fnalias2", V: cfg.Str("%fnalias%")},
+			cfg.KV{K: "echosrc", V: cfg.Str(`%c20echo("e")%`)}, cfg.KV{K: "echoalias", V: cfg.Str("%echosrc%")}, cfg.KV{K: "echocat", V: cfg.Str("<%echoalias%|%fnalias2%>")})
 		// services created from a value expression, in every scope (a pointer literal is a fresh object per creation), and
 		// constructor services that hold them
 		for k, sc := range []string{"contextual", "non_shared", "shared", ""} {
